@@ -19,6 +19,9 @@ import (
 type modeDef struct {
 	Name   string   `json:"name"`
 	Values []string `json:"values"`
+	// a mode without values: Nil = its value list is a nil slice, else an empty non-nil slice (a list
+	// that was filtered down to nothing / is provisioned later)
+	Nil bool `json:"nil,omitempty"`
 }
 
 type modeOp struct {
@@ -81,7 +84,25 @@ func (c *modeSeq) Line() string {
 	}
 	return sb.String()
 }
-func (c *modeSeq) Key() string { return c.Cfg + " " + c.Line() }
+func (c *modeSeq) Key() string {
+	k := c.Cfg + " " + c.Line()
+	for _, md := range c.Modes {
+		if len(md.Values) == 0 && md.Nil {
+			k += " nil:" + md.Name
+		}
+	}
+	return k
+}
+
+// someModeEmpty: a configured mode has no values (nothing NewModelModes could select)
+func (c *modeSeq) someModeEmpty() bool {
+	for _, md := range c.effectiveModes() {
+		if len(md.Values) == 0 {
+			return true
+		}
+	}
+	return false
+}
 func (c *modeSeq) NonTrivial() bool {
 	for _, o := range c.Ops {
 		if len(o.Relative) > 0 {
@@ -92,6 +113,9 @@ func (c *modeSeq) NonTrivial() bool {
 }
 func (c *modeSeq) Buckets() []string {
 	b := []string{"cfg=" + c.Cfg}
+	if c.someModeEmpty() {
+		b = append(b, "cfg: a mode without values")
+	}
 	for _, o := range c.Ops {
 		b = append(b, fmt.Sprintf("op:mask=%s,rel=%v", o.Mask, len(o.Relative) > 0))
 	}
@@ -116,6 +140,9 @@ func toPbModes(ms []modeDef) *traits.Modes {
 		pm := &traits.Modes_Mode{Name: m.Name}
 		for _, v := range m.Values {
 			pm.Values = append(pm.Values, &traits.Modes_Value{Name: v})
+		}
+		if len(m.Values) == 0 && !m.Nil {
+			pm.Values = []*traits.Modes_Value{}
 		}
 		out.Modes = append(out.Modes, pm)
 	}
@@ -184,6 +211,11 @@ func nodup(xs []string) bool { return len(setOf(xs)) == len(xs) }
 // an unknown or absent current value selects the first value; explicit values are stored.
 func (c *modeSeq) Check(m *lib.Monitor, code string) {
 	if strings.HasPrefix(code, "new:") {
+		if c.someModeEmpty() {
+			// "the first value of each mode will be selected": there is none to select, the constructor
+			// refuses the configuration (by panicking); nothing was constructed, nothing to check
+			return
+		}
 		m.Violate("C20/mode/NewModelModes/panic", "constructor panicked on modes that all have a value: "+lastPanic, c, "no panic", code)
 		return
 	}
@@ -191,7 +223,11 @@ func (c *modeSeq) Check(m *lib.Monitor, code string) {
 	first := map[string]string{}
 	byName := map[string][]string{}
 	for _, md := range modes {
-		first[md.Name] = md.Values[0] // later duplicates of a mode name overwrite, like the code's map write
+		// later duplicates of a mode name overwrite, like the code's map write; should a model come into
+		// being although one of its modes has no values, that mode can have no selected value
+		if len(md.Values) > 0 {
+			first[md.Name] = md.Values[0]
+		}
 		if _, ok := byName[md.Name]; !ok {
 			byName[md.Name] = md.Values
 		}
@@ -280,7 +316,7 @@ func init() {
 	decoders["mode/seq"] = decoder[modeSeq]()
 	builders = append(builders, func(f lib.Flags, res *lib.Result, rng *rand.Rand) []*section {
 		s := &section{name: "mode/seq",
-			tie: res.Tie("mode.ModelServer.UpdateModeValues sequences", "K1", "random configurations (NewModelModes with 1..3 modes of 1..4 values [5% duplicate value, 5% duplicate mode name] 85%, NewModel() 15%) and 1..8 updates (relative entries on known modes 80%/unknown 20%, steps in -5..5 90% / near +-2^31 10%; explicit values known/garbage; about 10% of mode names and values in requests are near-miss variants of configured ones (case, padding, prefix, extension, look-alike, empty); mask none or 'values'); short sequences first; non-trivial = some relative entry; distinct by config + request line"),
+			tie: res.Tie("mode.ModelServer.UpdateModeValues sequences", "K1", "random configurations (NewModelModes with 1..3 modes of 1..4 values [5% duplicate value, 5% duplicate mode name, 4% of the modes have NO values: an empty non-nil list 2/3, a nil list 1/3 - the constructor refuses them by panicking, in the model too] 85%, NewModel() 15%) and 1..8 updates (relative entries on known modes 80%/unknown 20%, steps in -5..5 90% / near +-2^31 10%; explicit values known/garbage; about 10% of mode names and values in requests are near-miss variants of configured ones (case, padding, prefix, extension, look-alike, empty); mask none or 'values'); short sequences first; non-trivial = some relative entry; distinct by config + request line"),
 			mon: res.Monitor("mode.relative-step and config vs table lookup", "Modes() and initial values are the configured ones; relative k from index i of n distinct values selects (i+k) mod n (math/big Euclidean), unknown/absent current value selects the first; explicit values are stored; no panic")}
 		modeNames := []string{"temp", "spin", "eco"}
 		valNames := []string{"v0", "v1", "v2", "v3", "v4", "v5"}
@@ -303,6 +339,9 @@ func init() {
 					}
 					if j > 0 && rng.Intn(20) == 0 {
 						d.Name = modeNames[0]
+					}
+					if rng.Intn(25) == 0 {
+						d.Values, d.Nil = nil, rng.Intn(3) == 0 // boundary: a mode without values
 					}
 					c.Modes = append(c.Modes, d)
 				}
@@ -335,7 +374,10 @@ func init() {
 					o.Values = map[string]string{}
 					for r := rng.Intn(3); r > 0; r-- {
 						d := pick(rng, eff)
-						v := pick(rng, d.Values)
+						v := "garbage"
+						if len(d.Values) > 0 {
+							v = pick(rng, d.Values)
+						}
 						if rng.Intn(4) == 0 {
 							v = "garbage"
 						} else if rng.Intn(6) == 0 {
